@@ -1939,8 +1939,12 @@ class PyCdlib:
         num_sectors = utils.ceiling_div(data_len, self.logical_block_size)
         csum = 0
         curr_sector = 0
+        left = data_len
         while curr_sector < num_sectors:
-            block = data_fp.read(self.logical_block_size)
+            # The file object may hold more than the length that was given for
+            # the file; only that many bytes are the file.
+            block = data_fp.read(min(self.logical_block_size, left))
+            left -= len(block)
             if not block:
                 # The file is shorter than the length says (the length of a
                 # boot file without a name is a guess from the El Torito
